@@ -1048,15 +1048,29 @@ def mk_app(S):
     return app, key, ttl, impl
 
 
-def install_recovery_world(S, cache_outcomes=("hit", "miss")):
-    """Everything _unpack_and_recover_state / _resolve_call_from_token touch besides the token openers."""
+def cached_entry(S, method_name):
+    return SObj(None, kind="Resolved", call_state=S.opaque("cached_call_state", "CallState"), output_schema=SObj(None, kind="Schema"), input_schema=SObj(None, kind="Schema"), stream_id=S.str("cached_stream_id"), created_at=None, method_name=method_name)
+
+
+def install_recovery_world(S, cache_outcomes=("hit", "foreign", "miss"), request_method=None):
+    """Everything _unpack_and_recover_state / _resolve_call_from_token touch besides the token openers.
+    The cache answers: an entry recorded for the method of this request ("hit"), an entry recorded for another
+    stream method ("foreign"; trees whose entries carry no method never look at the field), or nothing."""
     W = {}
 
     def cache_get(S, c, call_id, auth, now):
         S.event("cache.get", call_id, auth)
-        if cache_outcomes[S.choose(len(cache_outcomes))] == "hit":
-            W["hit"] = SObj(None, kind="Resolved", call_state=S.opaque("cached_call_state", "CallState"), output_schema=SObj(None, kind="Schema"), input_schema=SObj(None, kind="Schema"), stream_id=S.str("cached_stream_id"))
+        outcome = cache_outcomes[S.choose(len(cache_outcomes))]
+        S.inputs["cache"] = outcome
+        if outcome == "hit":
+            W["hit"] = cached_entry(S, request_method)
             return W["hit"]
+        if outcome == "foreign":
+            other = S.str("cached_entry_method")
+            if request_method is not None:
+                S.assume(Not(eq(other, request_method)))
+            W["foreign"] = cached_entry(S, other)
+            return W["foreign"]
         return None
 
     S.handlers["Cache.get"] = cache_get
@@ -1203,6 +1217,7 @@ def resolution_order(S):
         return
     S.oblige("O6.returns_the_authenticated_call_id_and_state_bytes", call_id is ok[0][6] and state_bytes is ok[0][5], kind="trace")
     S.oblige("O6.state_is_deserialised_from_the_authenticated_bytes", any(e[0] == "deserialize_state" and e[1] is ok[0][5] for e in S.trace) and any(e[0] == "resolve_state_cls" and e[1] is ok[0][5] for e in S.trace), kind="trace")
+    S.oblige("O6.an_entry_cached_for_another_method_is_never_served", resolved is not W.get("foreign", object()), kind="trace")
     if "hit" in W:
         S.oblige("O6.cache_hit_uses_the_cached_call_and_consults_no_call_token", resolved is W["hit"] and not call_ok and "open_call" not in names, kind="trace")
     else:
@@ -1401,7 +1416,8 @@ def exchange_order(S):
     install_token_openers(S, cursor_outcomes=(cursor,), call_outcomes=("accept", "reject"))
     if cursor == "accept":
         quiet_hooks(S)  # the failing-hook paths of the recovery are unit O6's; here: what runs after an accepted token
-    W = install_recovery_world(S)
+    method = S.str("method_name")
+    W = install_recovery_world(S, request_method=method)
     app, key, ttl, impl = mk_dispatch_app(S)
     shape = ["none", "dp"][S.choose(2)]
     auth, ident = mk_auth(S, "1", shape)
@@ -1410,7 +1426,6 @@ def exchange_order(S):
     cancel = S.choose(2) == 1
     token = S.bytes("token") if S.choose(2) == 0 else None
     call_token = S.bytes("call_token") if S.choose(2) == 0 else None
-    method = S.str("method_name")
     out = run_exchange(S, app, method, token, call_token, cancel)
     names = [e[0] for e in S.trace]
     if token is not None:
@@ -1444,7 +1459,7 @@ def is_method_name(s):
     return And(nul_free(s), s.length() > 0)
 
 
-def mint_then_exchange(S, shapes=("none", "dp"), vary=True, same_shape=False, on_accept=None, same_method=False):
+def mint_then_exchange(S, shapes=("none", "dp"), vary=True, same_shape=False, on_accept=None, same_method=False, on_call_accept=None):
     S.prune_lia = True
     install_clock(S)
     quiet_hooks(S)
@@ -1506,25 +1521,54 @@ def mint_then_exchange(S, shapes=("none", "dp"), vary=True, same_shape=False, on
         S.event("open_cursor_rejected", token, token_key, aad, token_ttl)
         raise PyRaise(rpc_400("token rejected"))
 
+    # another stream's call token (minted by some other /init: its own fresh call id, sealed under whatever AAD)
+    other_tok, other_aad, other_call_id = S.bytes("other_call_token"), S.bytes("other_call_aad"), S.bytes("other_call_id")
+    S.assume(And(other_call_id.length() == 16, Not(eq(other_call_id, ccall_id))))  # call ids are fresh per /init (os.urandom)
+
     def open_call(S, token, token_key, aad, token_ttl=0, **out_params):
         S.event("open_call", token, token_key, aad, token_ttl)
         if token is ktok and S.fork(And(eq(token_key, kkey), eq(aad, kaad))):
             r = (kcs, "", S.bytes("schema_bytes_out"), S.bytes("schema_bytes_in"), kcall_id, ksid)
             S.event("open_call_ok", token, token_key, aad, token_ttl, r)
+            if on_call_accept is not None:
+                on_call_accept(S, R)  # as on_accept: stated where the AEAD accepted the call token
             report_created_at(S, out_params, kcreated)
+            return r
+        if token is other_tok and S.fork(And(eq(token_key, kkey), eq(aad, other_aad))):
+            r = (S.bytes("other_call_state"), "", S.bytes("schema_bytes_out"), S.bytes("schema_bytes_in"), other_call_id, S.str("other_stream_id"))
+            S.event("open_call_ok", token, token_key, aad, token_ttl, r)
+            report_created_at(S, out_params, S.int("other_created_at"))
             return r
         raise PyRaise(rpc_400("token rejected"))
 
     S.handlers["_open_cursor_token"] = open_cursor
     S.handlers["_open_call_token"] = open_call
     S.inline.update({"_compute_aad", "_compute_call_aad"})
-    R["W"] = install_recovery_world(S)
-    # request shapes: exchange turn / producer continuation / cancel, with and without the echoed call token
-    shapes_b = [(False, False, True), (True, False, True), (False, True, True), (False, False, False), (True, True, False)]
-    is_prod, cancel, with_call_token = shapes_b[S.choose(len(shapes_b))] if vary else shapes_b[0]
+    R["W"] = W = install_recovery_world(S)
+
+    # the cache of the worker that receives the request.  Invariant I (proved on this harness, obligations *_entry_carries_*):
+    # an entry filed under a call id records the method whose /init minted that call id - the warm-up entry of /init
+    # records the dispatch's method, and a miss-path entry is recorded only after the call token of that very call id
+    # opened under the AAD of the dispatch's method.  So whatever this worker holds for the authenticated call id of the
+    # cursor token is an entry recorded for m1 (or nothing).
+    def cache_get(S, c, call_id, auth, now):
+        S.event("cache.get", call_id, auth)
+        if S.choose(2) == 0:
+            S.inputs["cache"] = "holds_the_entry_of_the_minting_method"
+            W["hit"] = cached_entry(S, m1)
+            return W["hit"]
+        S.inputs["cache"] = "empty"
+        return None
+
+    S.handlers["Cache.get"] = cache_get
+    # request shapes: exchange turn / producer continuation / cancel; echoing the own call token, none, or another stream's
+    shapes_b = [(False, False, "own"), (True, False, "own"), (False, True, "own"), (False, False, None), (True, True, None), (False, False, "other")]
+    is_prod, cancel, which_call = shapes_b[S.choose(len(shapes_b))] if vary else shapes_b[0]
     S.ghost["is_producer"] = is_prod
-    S.inputs.update(is_producer=S.ghost["is_producer"], cancel=cancel, with_call_token=with_call_token)
-    R["out"] = run_exchange(S, app, m2, ctok, ktok if with_call_token else None, cancel)
+    S.inputs.update(is_producer=S.ghost["is_producer"], cancel=cancel, call_token=which_call or "none")
+    R["out"] = run_exchange(S, app, m2, ctok, {"own": ktok, "other": other_tok, None: None}[which_call], cancel)
+    R["puts_a"] = [e for e in S.trace[:start] if e[0] == "cache.put"]
+    R["puts_b"] = [e for e in S.trace[start:] if e[0] == "cache.put"]
     R["trace_b"] = S.trace[start:]
     R["ran"] = [e for e in R["trace_b"] if e[0] in USER_CODE]
     return R
